@@ -1,22 +1,35 @@
-"""C08 (partial) -- SpecAugment draws stay within bounds; masking touches only masked cells.
+"""C08 (partial) -- SpecAugment draws stay within bounds; masking touches only masked cells; warps resample.
 
 code -> spec (SpecAugmentTrace.tla): SpecAugment.draw_parameters is run over a grid of
 configurations (every combination of zero / small / large mask limits, proportions 0, 1/4, 1/2, 1,
-warps smaller and larger than half the length), shapes, length vectors and random sources (seeded
-generator; torch.rand stubbed to the extreme values it can return).  Every batch element becomes one
-trace: the drawn parameters (warp values quantised SOUNDLY to half frames), the half-frame
-quantisation of the linear warp's sampling grid, the zeroed cells of apply_parameters / forward,
-the output shape and the eval-mode result.  TLC accepts a trace iff every event is allowed by the
-documented bounds / effects.
+warps smaller and larger than half the length; interpolation order 1 everywhere, orders 2 and 3 on
+a subset of the warp-enabled configurations), shapes, length vectors, feature dtypes (float32 and
+float64, WITH and without warps) and random sources (seeded generator; torch.rand stubbed to the
+extreme values it can return).  Every batch element becomes one trace: the drawn parameters (warp
+values quantised SOUNDLY to half frames), the half-frame quantisation of the linear warp's sampling
+grid (order 1 only), the zeroed cells of apply_parameters / forward, the "Hull" event (finiteness and
+range of the non-masked output cells against the range of the element's input plane, in units of
+1/1024, for every order), the output shape and the eval-mode result.  TLC accepts a trace iff every
+event is allowed by the documented bounds / effects.
+
+The linear time warp is also OBSERVED through all four entry points on ramp features (both dtypes)
+and, deterministically (no randomness), in a "long padded batch" family: padded lengths 100, 200, 500
+(thorough: 1000), valid lengths T, T/2, 50, 10, centre L/2, shifts +-0.96 W and +-0.5 W with
+W = min(80, L/2), directly from warp_1d_grid and through spec_augment_apply_parameters; the same Grid
+event, the same GridOK.  A rejected grid of that family is classified BY THE SPECIFICATION (GridDiag:
+which of order / first / last failed).
 
 spec -> code (SpecAugment.tla): TLC enumerates every in-bounds mask parameter vector for small
 (T, F, length); apply_parameters is run on integer-valued, pairwise distinct, non-zero features and
 compared cell by cell with the spec's zero set (masked => 0, every other cell bit-identical), in big
 batches and in seeded small batches.
 
-NOT decided (real-valued interpolation, see DESIGN 1.1): that warped VALUES are finite and inside the
-input's range for any spline order, and monotonicity / pinned ends of the linear warp beyond the
-half-frame abstraction."""
+Decided at the abstraction level only (real-valued interpolation, see DESIGN 1.1): "no warp of any
+order yields a non-finite value or one outside the range of its input" as hull containment per
+element (HullOK in SpecAugment.tla, with its rationale and a design check of the border-padded
+bilinear read); monotonicity / pinned ends of the linear warp on the half-frame quantisation.
+NOT decided: monotone / pinned beyond the half-frame abstraction; anything about the VALUES of a
+warp of order >= 2 beyond hull containment (its grid is not constrained by the property)."""
 import itertools
 import json
 import math
@@ -33,7 +46,7 @@ PROP = "C08"
 MOD = os.path.join(SPECS, "SpecAugment.tla")
 TRACE_MOD = os.path.join(SPECS, "SpecAugmentTrace.tla")
 ACTIONS = ["Init", "DrawTimeWidths", "DrawTimeStarts", "DrawFreqWidths", "DrawFreqStarts", "DrawWarpCentre",
-           "DrawWarpShift", "ApplyDraw", "Apply", "ComputeGrid"]
+           "DrawWarpShift", "ApplyDraw", "Apply", "ComputeGrid", "ComputeHull"]
 MAX_PER_SIG = 12
 BIG = 10 ** 6
 
@@ -56,8 +69,16 @@ def quiet(fn, *a, **kw):
 # spec -> code: mask application
 # ---------------------------------------------------------------------------------------------
 def features(N, T, F, positive=False, dtype=torch.float32):
-    """integer-valued, pairwise distinct, non-zero"""
-    x = torch.arange(1, N * T * F + 1, dtype=dtype).view(N, T, F)
+    """integer-valued, pairwise distinct, non-zero.  positive (used when a warp is drawn): 1..N*T*F in a scrambled
+    order (k -> 1 + k * s mod n, s coprime to n near 0.618 n), so that the planes are NOT affine in (frame,
+    coefficient): an interpolation that merely reproduces affine data cannot hide an overshoot from the Hull event"""
+    n = N * T * F
+    if positive:
+        s = max(1, int(0.618 * n))
+        while math.gcd(s, n) != 1:
+            s += 1
+        return (1 + (torch.arange(n, dtype=torch.long) * s) % n).to(dtype).view(N, T, F)
+    x = torch.arange(1, n + 1, dtype=dtype).view(N, T, F)
     if not positive:
         sign = torch.where(torch.arange(N * T * F).view(N, T, F) % 3 == 1, -1.0, 1.0).to(dtype)
         x = x * sign
@@ -215,6 +236,24 @@ def spec_cfg(c):
                 ntm=c["num_time_mask"], q4=int(round(4 * c["num_time_mask_proportion"])), nfm=c["num_freq_mask"])
 
 
+UNIT = 1024  # Hull events: 1/1024 of a feature unit
+
+
+def hull_event(order, x_in, x_out):
+    """project one element's input plane / output plane to the Hull event of the trace spec (masked cells are
+    zeros - the zero set is what the Apply event carries and the spec validates - and are excluded)"""
+    x_in, x_out = x_in.double(), x_out.double()
+    inlo, inhi = int(round(float(x_in.min()) * UNIT)), int(round(float(x_in.max()) * UNIT))
+    finite = bool(torch.isfinite(x_out).all())
+    keep = x_out[x_out != 0]
+    if finite and keep.numel():
+        outlo, outhi = math.floor(float(keep.min()) * UNIT), math.ceil(float(keep.max()) * UNIT)
+        outlo, outhi = max(-BIG * UNIT, outlo), min(BIG * UNIT, outhi)
+    else:
+        outlo, outhi = inlo, inhi
+    return dict(a="Hull", order=int(order), finite=1 if finite else 0, inlo=inlo, inhi=inhi, outlo=outlo, outhi=outhi)
+
+
 def record_call(call):
     """Run one SpecAugment call description; -> (list of per-element traces, error or None).
     call: dict(cfg, N, T, F, lens or None, source kind/seed, dtype)"""
@@ -288,6 +327,7 @@ def record_call(call):
                 z = o[n] == 0
                 evs[n].append(dict(a="Apply", zero=[[int(i), int(j)] for i, j in z.nonzero().tolist()],
                                    changed=int(((o[n] != feats[n]) & ~z).sum()), exact=0 if warp else 1))
+                evs[n].append(hull_event(c["interpolation_order"], feats[n], o[n]))
             evs[n].append(dict(a="Shape", shape=[int(x) for x in o.shape]))
         same = tuple(ev_out.shape) == tuple(feats.shape)
         evs[n].append(dict(a="Eval", changed=int((ev_out[n] != feats[n]).sum()) if same else 1))
@@ -311,9 +351,19 @@ def destination_class(t, axis):
     return "at_last_frame" if dst >= L - 1.0 - 1e-3 else "at_first_frame" if dst <= 1e-3 else "inside"
 
 
+def higher_orders(ctx, k):
+    """interpolation orders >= 2 tried on configuration number k of the grid (when it enables a warp): quick -
+    order 2 on every fourth, order 3 on another fourth (the selector is coprime to the cycles of the grid, so
+    every time / frequency warp value meets both orders); thorough - orders 2 and 3 on every one"""
+    if not ctx.quick:
+        return (2, 3)
+    sel = (k + k // 5 + k // 60) % 4
+    return (2,) if sel == 1 else (3,) if sel == 3 else ()
+
+
 def configs(ctx):
     """the configuration grid: every time-mask limit combination x every time warp; the frequency
-    side and the shapes cycle"""
+    side and the shapes cycle; interpolation order 1, and orders 2 / 3 on the subset higher_orders"""
     mws = [0, 1, 3] if ctx.quick else [0, 1, 2, 5]
     props = [0.0, 0.25, 0.5, 1.0] if ctx.quick else [0.0, 0.25, 0.5, 0.75, 1.0]
     nums = [0, 1, 2] if ctx.quick else [0, 1, 2, 3]
@@ -323,9 +373,13 @@ def configs(ctx):
     k = 0
     for mtm, p, ntm, q, tw in itertools.product(mws, props, nums, props, twarps):
         mfm, nfm = fm[k % len(fm)]
-        yield dict(max_time_warp=tw, max_freq_warp=fwarps[(k // 3) % len(fwarps)], max_time_mask=mtm,
-                   max_freq_mask=mfm, max_time_mask_proportion=p, num_time_mask=ntm,
-                   num_time_mask_proportion=q, num_freq_mask=nfm, interpolation_order=1)
+        c = dict(max_time_warp=tw, max_freq_warp=fwarps[(k // 3) % len(fwarps)], max_time_mask=mtm,
+                 max_freq_mask=mfm, max_time_mask_proportion=p, num_time_mask=ntm,
+                 num_time_mask_proportion=q, num_freq_mask=nfm, interpolation_order=1)
+        yield c
+        if c["max_time_warp"] > 0 or c["max_freq_warp"] > 0:
+            for order in higher_orders(ctx, k):
+                yield dict(c, interpolation_order=order)
         k += 1
 
 
@@ -339,19 +393,21 @@ def calls(ctx):
             F = 1 + (j * 3 + j // 7) % maxF
             N = 1 + j % 3
             lens = None if j % 6 == 5 else [ctx.rng.randint(1, T) for _ in range(N)]
-            warp = c["max_time_warp"] > 0 or c["max_freq_warp"] > 0
+            # float64 features with AND without warps (the values stay integer-valued either way)
             yield dict(cfg=c, N=N, T=T, F=F, lens=lens, source=s, seed=ctx.seed * 1000003 + j,
-                       dtype="float64" if (j % 4 == 2 and not warp) else "float32")
+                       dtype="float64" if (j + j // 4) % 4 == 2 else "float32")
             j += 1
 
 
 KIND = {"TimeWarp": "time_warp_window", "FreqWarp": "freq_warp_window", "TimeMask": "time_mask_bounds",
         "FreqMask": "freq_mask_bounds", "Grid": "linear_warp_grid", "Apply": "apply_zeroed_cells",
-        "Shape": "output_shape", "Eval": "eval_not_identity"}
+        "Hull": "warp_value_outside_input_range", "Shape": "output_shape", "Eval": "eval_not_identity"}
 
 
-def validate(ctx, traces, name="SpecAugmentTrace"):
-    """-> (set of accepted tids, dict tid -> longest accepted prefix for the rejected ones)"""
+def validate(ctx, traces, name="SpecAugmentTrace", grid_diag=None):
+    """-> (set of accepted tids, dict tid -> longest accepted prefix for the rejected ones); grid_diag (a dict),
+    when given, receives for every rejected trace tid -> {event index -> the specification's verdict on each
+    clause of GridOK for that Grid event: dict(order=0/1, first=0/1, last=0/1)}"""
     path = os.path.join(ctx.workdir, "%s_%d.json" % (name.replace("/", "_"), len(ctx.tlc_runs)))
     with open(path, "w") as f:
         json.dump([{k: t[k] for k in ("tid", "cfg", "T", "F", "len", "shape", "ev")} for t in traces], f)
@@ -376,7 +432,9 @@ def validate(ctx, traces, name="SpecAugmentTrace"):
             json.dump([{k: t[k] for k in ("tid", "cfg", "T", "F", "len", "shape", "ev")} for t in sub], f)
         diag = os.path.join(ctx.workdir, "SpecAugmentTraceDiag.cfg")
         with open(os.path.join(cfgdir, "SpecAugmentTrace.cfg")) as f:
-            txt = f.read().replace("INVARIANT Accept\n", "INVARIANT Accept\nINVARIANT Progress\n")
+            txt = f.read().replace("INVARIANT Accept\n", "INVARIANT Accept\nINVARIANT Progress\nINVARIANT GridDiag\n")
+        if "INVARIANT GridDiag" not in txt:
+            raise MachineryError("could not derive the diagnosis configuration from SpecAugmentTrace.cfg")
         txt = txt.replace("POSTCONDITION AllAccepted\n", "")
         with open(diag, "w") as f:
             f.write(txt)
@@ -385,7 +443,21 @@ def validate(ctx, traces, name="SpecAugmentTrace"):
         for r in res2.records:
             if "upto" in r:
                 upto[r["tid"]] = max(upto.get(r["tid"], 0), r["upto"])
+            elif "gridat" in r and grid_diag is not None:
+                grid_diag.setdefault(r["tid"], {})[r["gridat"]] = dict(order=r["order"], first=r["first"], last=r["last"])
     return accepted, upto
+
+
+def trace_sig(t, ev, site="SpecAugment"):
+    """signature of a trace rejected at event ev (classification only: the verdict is TLC's)"""
+    sig = dict(site=site, kind=KIND.get(ev["a"], "rejected"))
+    if ev["a"] == "Grid":
+        sig["axis"] = ev["axis"]
+        sig["destination"] = destination_class(t, ev["axis"])
+    elif ev["a"] == "Hull":
+        sig["order"] = ev["order"]
+        sig["clause"] = "finite" if ev["finite"] != 1 else "range"
+    return sig
 
 
 def run_traces(ctx):
@@ -409,7 +481,8 @@ def run_traces(ctx):
         c = t["cfg"]
         nontriv = any(e["a"] in ("TimeMask", "FreqMask") and e["on"] == 1 and any(x > 0 for x in e.get("t", e.get("f", [])))
                       for e in t["ev"]) or any(e["a"] == "TimeWarp" and e["on"] == 1 for e in t["ev"])
-        ctx.case(key=("trace", json.dumps(t["cfg"], sort_keys=True), t["T"], t["F"], t["len"], json.dumps(t["ev"][:4])),
+        ctx.case(key=("trace", json.dumps(t["cfg"], sort_keys=True), call["cfg"]["interpolation_order"], call["dtype"],
+                      t["T"], t["F"], t["len"], json.dumps(t["ev"][:4])),
                  nontrivial=nontriv,
                  sample=dict(kind="trace", cfg=t["cfg"], T=t["T"], F=t["F"], length=t["len"], events=t["ev"])
                  if t["tid"] % 1999 == 7 else None)
@@ -421,16 +494,22 @@ def run_traces(ctx):
             continue
         k = upto[t["tid"]]
         ev = t["ev"][k] if k < len(t["ev"]) else dict(a="?")
-        kind = KIND.get(ev["a"], "rejected")
-        sig = dict(site="SpecAugment", kind=kind)
-        if ev["a"] == "Grid":
-            sig["axis"] = ev["axis"]
-            sig["destination"] = destination_class(t, ev["axis"])
+        sig = trace_sig(t, ev) if "a" in ev and ev["a"] != "?" else dict(site="SpecAugment", kind="rejected")
         _viol(ctx, sig, "trace rejected at event %d of %d: %r (configuration %r, T=%d F=%d length=%d, source=%s)" % (
             k + 1, len(t["ev"]), ev, call["cfg"], t["T"], t["F"], t["len"], call["source"]),
               dict(type="call", call=call, elem=t["elem"], first_rejected_event=ev, accepted_prefix=t["ev"][:k]))
     ctx.traces += len(traces)
     ctx.count("element_traces_validated", len(traces))
+    for t, call in zip(traces, meta):
+        if t["tid"] not in accepted:
+            continue
+        warp = call["cfg"]["max_time_warp"] > 0 or call["cfg"]["max_freq_warp"] > 0
+        nh = sum(1 for e in t["ev"] if e["a"] == "Hull")
+        ctx.count("hull_events_validated", nh)
+        if warp:
+            ctx.count("hull_events_validated_warp_order_%d" % call["cfg"]["interpolation_order"], nh)
+            if call["dtype"] == "float64":
+                ctx.count("element_traces_float64_with_warp")
 
 
 def qsnap2(x):
@@ -448,89 +527,266 @@ def qsnap2(x):
 ENTRY_POINTS = ("SpecAugment.__call__", "SpecAugment.draw+apply", "functional.spec_augment", "functional.draw+apply")
 
 
+def ramp(N, T, F, dtype):
+    """value = frame index + 1, continued through the padding: an output value reveals the source position read"""
+    dt = torch.float64 if dtype == "float64" else torch.float32
+    return (torch.arange(T, dtype=dt) + 1).view(1, T, 1).expand(N, T, F).contiguous()
+
+
+def observe_call(call):
+    """one observed-grid call (masks off, linear time warp) through call["entry_point"] -> output tensor"""
+    from pydrobert.torch import functional as Fn
+    from pydrobert.torch import modules as M
+
+    c, ep = call["cfg"], call["entry_point"]
+    feats = ramp(call["N"], call["T"], call["F"], call.get("dtype", "float32"))
+    lens = torch.tensor(call["lens"])
+    torch.manual_seed(call["seed"])
+    if ep == "SpecAugment.__call__":
+        m = M.SpecAugment(**c)
+        m.train()
+        return quiet(m, feats, lens)
+    if ep == "SpecAugment.draw+apply":
+        m = M.SpecAugment(**c)
+        m.train()
+        return quiet(m.apply_parameters, feats, quiet(m.draw_parameters, feats, lens), lens)
+    if ep == "functional.spec_augment":
+        return quiet(Fn.spec_augment, feats, c["max_time_warp"], c["max_freq_warp"], c["max_time_mask"],
+                     c["max_freq_mask"], c["max_time_mask_proportion"], c["num_time_mask"],
+                     c["num_time_mask_proportion"], c["num_freq_mask"], c["interpolation_order"], lens, True)
+    if ep != "functional.draw+apply":
+        raise MachineryError("unknown entry point %r" % (ep,))
+    params = quiet(Fn.spec_augment_draw_parameters, feats, c["max_time_warp"], c["max_freq_warp"],
+                   c["max_time_mask"], c["max_freq_mask"], c["max_time_mask_proportion"], c["num_time_mask"],
+                   c["num_time_mask_proportion"], c["num_freq_mask"], lens)
+    return quiet(Fn.spec_augment_apply_parameters, feats, params, c["interpolation_order"], lens)
+
+
+def observed_traces(ctx, call, traces, meta):
+    """run one observed-grid call; append its element traces (Grid, Hull, Shape); report exceptions / shapes"""
+    ep = call["entry_point"]
+    N, T, F = call["N"], call["T"], call["F"]
+    case = dict(type="observed_grid", call=call)
+    try:
+        out = observe_call(call)
+    except MachineryError:
+        raise
+    except Exception as ex:
+        _viol(ctx, dict(site=ep, kind="exception", exc=type(ex).__name__), "raised %s: %s" % (type(ex).__name__, ex), case)
+        return
+    if tuple(out.shape) != (N, T, F):
+        _viol(ctx, dict(site=ep, kind="output_shape"), "output shape %r for input %r" % (tuple(out.shape), (N, T, F)), case)
+        return
+    feats = ramp(N, T, F, call.get("dtype", "float32"))
+    for n in range(N):
+        L = call["lens"][n]
+        pos = (out[n, :L, 0].double() - 1).tolist()
+        t = dict(cfg=spec_cfg(call["cfg"]), T=T, F=F, len=L, shape=[N, T, F], elem=n, tid=len(traces),
+                 ev=[dict(a="Grid", axis="time", q=[qsnap2(x) for x in pos]),
+                     hull_event(call["cfg"]["interpolation_order"], feats[n], out[n]),
+                     dict(a="Shape", shape=[int(x) for x in out.shape])],
+                 raw=dict(time=None, freq=None))
+        traces.append(t)
+        meta.append((call, pos))
+
+
 def run_observed_grids(ctx):
     """The linear time warp as OBSERVED through every entry point: features are a ramp (value = frame index + 1,
     continued through the padding), so with masks off each output value reveals the source position the warp
     read; its half-frame quantisation over the valid frames goes through the same Grid action of the trace spec
-    (non-decreasing, pinned within half a frame at both ends of the VALID frames)."""
-    from pydrobert.torch import functional as Fn
-    from pydrobert.torch import modules as M
-
+    (non-decreasing, pinned within half a frame at both ends of the VALID frames).  float32 and float64 features."""
     traces, meta = [], []
-    ncfg = 0
     for tw in ([0.5, 1.0, 2.5, 10.0] if ctx.quick else [0.5, 1.0, 1.5, 2.5, 4.0, 10.0]):
         c = dict(max_time_warp=tw, max_freq_warp=0.0, max_time_mask=0, max_freq_mask=0, max_time_mask_proportion=0.0,
                  num_time_mask=0, num_time_mask_proportion=0.0, num_freq_mask=0, interpolation_order=1)
         for rep in range(6 if ctx.quick else 20):
-            ncfg += 1
             N = ctx.rng.choice((1, 2, 3))
             T = ctx.rng.choice((3, 4, 5, 7, 9))
             F = ctx.rng.choice((1, 2))
             lens_list = [ctx.rng.randint(2, T) for _ in range(N)]
             if rep % 4 == 3:
                 lens_list = [T] * N
-            lens = torch.tensor(lens_list)
-            feats = (torch.arange(T, dtype=torch.float32) + 1).view(1, T, 1).expand(N, T, F).contiguous()
             for ep in ENTRY_POINTS:
                 seed = ctx.rng.randrange(1 << 30)
-                torch.manual_seed(seed)
-                call = dict(cfg=c, N=N, T=T, F=F, lens=lens_list, seed=seed, entry_point=ep)
-                try:
-                    if ep == "SpecAugment.__call__":
-                        m = M.SpecAugment(**c)
-                        m.train()
-                        out = quiet(m, feats, lens)
-                    elif ep == "SpecAugment.draw+apply":
-                        m = M.SpecAugment(**c)
-                        m.train()
-                        out = quiet(m.apply_parameters, feats, quiet(m.draw_parameters, feats, lens), lens)
-                    elif ep == "functional.spec_augment":
-                        out = quiet(Fn.spec_augment, feats, c["max_time_warp"], c["max_freq_warp"], c["max_time_mask"],
-                                    c["max_freq_mask"], c["max_time_mask_proportion"], c["num_time_mask"],
-                                    c["num_time_mask_proportion"], c["num_freq_mask"], 1, lens, True)
-                    else:
-                        params = quiet(Fn.spec_augment_draw_parameters, feats, c["max_time_warp"], c["max_freq_warp"],
-                                       c["max_time_mask"], c["max_freq_mask"], c["max_time_mask_proportion"], c["num_time_mask"],
-                                       c["num_time_mask_proportion"], c["num_freq_mask"], lens)
-                        out = quiet(Fn.spec_augment_apply_parameters, feats, params, 1, lens)
-                except Exception as ex:
-                    _viol(ctx, dict(site=ep, kind="exception", exc=type(ex).__name__), "raised %s: %s" % (type(ex).__name__, ex),
-                          dict(type="observed_grid", call=call))
-                    continue
-                if tuple(out.shape) != (N, T, F):
-                    _viol(ctx, dict(site=ep, kind="output_shape"), "output shape %r for input %r" % (tuple(out.shape), (N, T, F)),
-                          dict(type="observed_grid", call=call))
-                    continue
-                for n in range(N):
-                    L = lens_list[n]
-                    pos = (out[n, :L, 0].double() - 1).tolist()
-                    t = dict(cfg=spec_cfg(c), T=T, F=F, len=L, shape=[N, T, F], elem=n, tid=len(traces),
-                             ev=[dict(a="Grid", axis="time", q=[qsnap2(x) for x in pos])], raw=dict(time=None, freq=None))
-                    traces.append(t)
-                    meta.append((call, pos))
+                call = dict(cfg=c, N=N, T=T, F=F, lens=lens_list, seed=seed, entry_point=ep,
+                            dtype="float64" if rep % 3 == 2 else "float32")
+                observed_traces(ctx, call, traces, meta)
     if not traces:
         return
     accepted, upto = validate(ctx, traces, "SpecAugmentTrace/observed_grid")
     for t, (call, pos) in zip(traces, meta):
-        ctx.case(key=("observed_grid", call["entry_point"], json.dumps(call["cfg"], sort_keys=True), t["T"], t["len"], call["seed"], t["elem"]),
+        ctx.case(key=("observed_grid", call["entry_point"], json.dumps(call["cfg"], sort_keys=True), call["dtype"], t["T"], t["len"],
+                      call["seed"], t["elem"]),
                  nontrivial=any(abs(p - i) > 0.25 for i, p in enumerate(pos)))
         if t["tid"] in accepted:
+            ctx.count("observed_grid_traces_%s" % call["dtype"])
+            ctx.count("hull_events_validated_ramp_order_1")
             continue
-        _viol(ctx, dict(site=call["entry_point"], kind="observed_linear_warp_grid"),
-              "through %s the linear time warp read the valid frames (length %d of %d) at source positions %r: not non-decreasing or not "
-              "beginning/ending within half a frame of the first/last valid frame" % (call["entry_point"], t["len"], t["T"], [round(p, 3) for p in pos]),
-              dict(type="observed_grid", call=call, elem=t["elem"], positions=pos))
+        k = upto.get(t["tid"], 0)
+        ev = t["ev"][k] if k < len(t["ev"]) else dict(a="?")
+        if ev["a"] == "Grid":
+            _viol(ctx, dict(site=call["entry_point"], kind="observed_linear_warp_grid"),
+                  "through %s the linear time warp read the valid frames (length %d of %d) at source positions %r: not non-decreasing or not "
+                  "beginning/ending within half a frame of the first/last valid frame" % (call["entry_point"], t["len"], t["T"], [round(p, 3) for p in pos]),
+                  dict(type="observed_grid", call=call, elem=t["elem"], positions=pos))
+        else:
+            _viol(ctx, dict(trace_sig(t, ev, call["entry_point"])) if ev["a"] != "?" else dict(site=call["entry_point"], kind="rejected"),
+                  "through %s (ramp features, length %d of %d): rejected at event %r" % (call["entry_point"], t["len"], t["T"], ev),
+                  dict(type="observed_grid", call=call, elem=t["elem"], positions=pos))
     ctx.traces += len(traces)
     ctx.count("observed_grid_traces_validated", len(traces))
 
 
+# ---------------------------------------------------------------------------------------------
+# code -> spec: the deterministic "long padded batch" family of the linear time warp
+# ---------------------------------------------------------------------------------------------
+LONG_MAX_WARP = 80
+LONG_SHIFTS = ((24, 25), (1, 2), (-1, 2), (-24, 25))  # shift = num / den * W: +-0.96 W, +-0.5 W
+LONG_VIAS = ("warp_1d_grid", "warp_1d_grid/single", "spec_augment_apply_parameters/float32",
+             "spec_augment_apply_parameters/float64")
+LONG_CFG = dict(max_time_warp=float(LONG_MAX_WARP), max_freq_warp=0.0, max_time_mask=0, max_freq_mask=0,
+                max_time_mask_proportion=0.0, num_time_mask=0, num_time_mask_proportion=0.0, num_freq_mask=0,
+                interpolation_order=1)
+
+
+def long_calls(ctx):
+    """every (padded length T, valid lengths T, T/2, 50, 10 in ONE batch, shift fraction): centre L/2, shift
+    num/den * W with W = min(80, L/2); all values explicit, nothing random"""
+    for T in ((100, 200, 500) if ctx.quick else (100, 200, 500, 1000)):
+        Ls = sorted({T, T // 2, 50, 10}, reverse=True)
+        for num, den in LONG_SHIFTS:
+            Ws = [min(float(LONG_MAX_WARP), L / 2.0) for L in Ls]
+            for via in LONG_VIAS:
+                yield dict(T=T, Ls=Ls, centres=[L / 2.0 for L in Ls], shifts=[num * W / den for W in Ws],
+                           shift_frac="%+.2fW" % (num / den), via=via)
+
+
+def long_record(call):
+    """-> list of (element index, L, positions read over the valid frames, events)"""
+    from pydrobert.torch import functional as Fn
+
+    T, Ls, via = call["T"], call["Ls"], call["via"]
+    cen, sh = torch.tensor(call["centres"]), torch.tensor(call["shifts"])
+    ls = torch.tensor(Ls)
+    out = []
+    if via == "warp_1d_grid":
+        grid = quiet(Fn.warp_1d_grid, cen, sh, ls.float(), T, 1)
+        if tuple(grid.shape) != (len(Ls), T):
+            raise ValueError("warp_1d_grid returned shape %r, expected %r" % (tuple(grid.shape), (len(Ls), T)))
+        pix = ((grid.double() + 1) * T - 1) / 2
+        for n, L in enumerate(Ls):
+            pos = pix[n, :L].tolist()
+            out.append((n, L, pos, [dict(a="Grid", axis="time", q=[qfloor2(x) for x in pos])]))
+    elif via == "warp_1d_grid/single":
+        for n, L in enumerate(Ls):
+            grid = quiet(Fn.warp_1d_grid, cen[n:n + 1], sh[n:n + 1], ls[n:n + 1].float(), T, 1)
+            if tuple(grid.shape) != (1, T):
+                raise ValueError("warp_1d_grid returned shape %r, expected %r" % (tuple(grid.shape), (1, T)))
+            pos = (((grid.double() + 1) * T - 1) / 2)[0, :L].tolist()
+            out.append((n, L, pos, [dict(a="Grid", axis="time", q=[qfloor2(x) for x in pos])]))
+    else:
+        dtype = via.split("/")[1]
+        feats = ramp(len(Ls), T, 1, dtype)
+        e = torch.empty(0)
+        res = quiet(Fn.spec_augment_apply_parameters, feats, (cen, sh, e, e, e, e, e, e), 1, ls)
+        same = tuple(res.shape) == tuple(feats.shape)
+        for n, L in enumerate(Ls):
+            evs, pos = [], []
+            if same:
+                pos = (res[n, :L, 0].double() - 1).tolist()
+                evs += [dict(a="Grid", axis="time", q=[qsnap2(x) for x in pos]), hull_event(1, feats[n], res[n])]
+            evs.append(dict(a="Shape", shape=[int(x) for x in res.shape]))
+            out.append((n, L, pos, evs))
+    return out
+
+
+def long_sig(call, L, n, ev, diag):
+    """signature of a rejected element of the family; for a Grid event the failed clause(s) come from the
+    specification's own diagnosis (GridDiag): order / first / last"""
+    sign = "+" if call["shifts"][n] > 0 else "-"
+    if ev["a"] != "Grid":
+        return dict(trace_sig(dict(raw={}, len=L, F=1), ev, call["via"]), T=call["T"], L=L, shift_sign=sign)
+    failed = [k for k in ("order", "first", "last") if diag is not None and diag.get(k) == 0]
+    return dict(site="warp_1d_grid", kind="linear_warp_grid_long_padded_batch", T=call["T"], L=L, shift_sign=sign,
+                shift=call["shift_frac"], end="+".join(failed) if failed else "unknown", via=call["via"])
+
+
+def long_traces(ctx, call, traces, meta):
+    try:
+        recs = long_record(call)
+    except Exception as ex:
+        _viol(ctx, dict(site=call["via"].split("/")[0], kind="exception", exc=type(ex).__name__, family="long_padded_batch"),
+              "raised %s: %s" % (type(ex).__name__, ex), dict(type="long_padded", call=call))
+        return
+    N = len(call["Ls"])
+    for n, L, pos, evs in recs:
+        traces.append(dict(cfg=spec_cfg(LONG_CFG), T=call["T"], F=1, len=L, shape=[N, call["T"], 1], elem=n, tid=len(traces),
+                           ev=evs, raw=dict(time=None, freq=None)))
+        meta.append((call, pos))
+
+
+def long_report(ctx, traces, meta, accepted, upto, diag, report):
+    for t, (call, pos) in zip(traces, meta):
+        if t["tid"] in accepted:
+            continue
+        k = upto.get(t["tid"], 0)
+        ev = t["ev"][k] if k < len(t["ev"]) else None
+        L, n = t["len"], t["elem"]
+        case = dict(type="long_padded", call=call, elem=n)
+        if ev is None:
+            report(dict(site=call["via"], kind="rejected", T=call["T"], L=L), "trace rejected (not diagnosed)", case)
+            continue
+        sig = long_sig(call, L, n, ev, diag.get(t["tid"], {}).get(k))
+        if ev["a"] == "Grid":
+            nonmono = sum(1 for a, b in zip(ev["q"], ev["q"][1:]) if a > b)
+            detail = ("linear time warp, padded length %d, valid length %d, centre %g, shift %g (%s, W=%g) via %s: the valid frames are "
+                      "read from position %.4f to %.4f, i.e. the read begins %.4f frames from frame 0 and ends %.4f frames from the last "
+                      "valid frame %d (half-frame decreases in the read order: %d); clause(s) of GridOK failed: %s" % (
+                          call["T"], L, call["centres"][n], call["shifts"][n], call["shift_frac"],
+                          min(float(LONG_MAX_WARP), L / 2.0), call["via"], pos[0], pos[-1], pos[0], pos[-1] - (L - 1), L - 1,
+                          nonmono, sig["end"]))
+        else:
+            detail = "padded length %d, valid length %d via %s: rejected at event %r" % (call["T"], L, call["via"], ev)
+        report(sig, detail, case)
+
+
+def run_long_padded(ctx):
+    """Long padded batch: the default (linear) time warp of sequences much shorter than the padded length, from
+    warp_1d_grid directly (whole batch / one element at a time) and observed through spec_augment_apply_parameters
+    on ramp features (float32 / float64); same Grid event, same GridOK; the applications also give Hull, Shape."""
+    traces, meta = [], []
+    ncalls = 0
+    for call in long_calls(ctx):
+        ncalls += 1
+        long_traces(ctx, call, traces, meta)
+    ctx.count("long_padded_batch_calls", ncalls)
+    if not traces:
+        return
+    diag = {}
+    accepted, upto = validate(ctx, traces, "SpecAugmentTrace/long_padded_batch", grid_diag=diag)
+    for t, (call, pos) in zip(traces, meta):
+        ctx.case(key=("long_padded", call["T"], t["len"], call["shift_frac"], call["via"]),
+                 nontrivial=any(abs(p - i) > 0.25 for i, p in enumerate(pos)),
+                 sample=dict(kind="long_padded_batch", T=call["T"], L=t["len"], centre=call["centres"][t["elem"]],
+                             shift=call["shifts"][t["elem"]], via=call["via"], first_read=pos[0], last_read=pos[-1])
+                 if (call["T"], t["len"], call["shift_frac"], call["via"]) == (500, 50, "+0.96W", "warp_1d_grid") else None)
+        if t["tid"] in accepted:
+            ctx.count("long_padded_batch_grids_accepted")
+            ctx.count("hull_events_validated_ramp_order_1", sum(1 for e in t["ev"] if e["a"] == "Hull"))
+    long_report(ctx, traces, meta, accepted, upto, diag, lambda sig, detail, case: _viol(ctx, sig, detail, case))
+    ctx.traces += len(traces)
+    ctx.count("long_padded_batch_traces_validated", len(traces))
+
+
 def selftest(ctx):
-    """binding self-test: corrupted traces must be rejected at the corrupted event"""
+    """binding self-test: corrupted traces must be rejected at the corrupted event (and a rejected Grid event
+    classified by the specification), the uncorrupted ones accepted"""
     base = dict(cfg=dict(mtw2=2, mfw2=0, mtm=3, mfm=1, p4=2, ntm=2, q4=4, nfm=1), T=4, F=2, len=4, shape=[1, 4, 2])
     good = [dict(a="TimeWarp", on=1, clo=4, chi=4, slo=-2, shi=-1), dict(a="FreqWarp", on=0, clo=0, chi=0, slo=0, shi=0),
             dict(a="TimeMask", on=1, t0=[2, 0], t=[2, 0]), dict(a="FreqMask", on=1, f0=[1], f=[1]),
             dict(a="Grid", axis="time", q=[0, 1, 3, 6]),
             dict(a="Apply", zero=[[0, 1], [1, 1], [2, 0], [2, 1], [3, 0], [3, 1]], changed=3, exact=0),
+            dict(a="Hull", order=3, finite=1, inlo=1024, inhi=8192, outlo=1500, outhi=8000),
             dict(a="Shape", shape=[1, 4, 2]), dict(a="Eval", changed=0)]
     import copy
 
@@ -539,42 +795,75 @@ def selftest(ctx):
                     (2, lambda e: e.update(t=[3, 0], t0=[1, 0])), (2, lambda e: e.update(t0=[3, 0])),
                     (2, lambda e: e.update(t=[1, 1, 1], t0=[0, 0, 0])), (3, lambda e: e.update(f0=[2])),
                     (4, lambda e: e.update(q=[0, 3, 2, 6])), (4, lambda e: e.update(q=[0, 1, 3, 4])),
+                    (4, lambda e: e.update(q=[2, 2, 3, 6])),
                     (5, lambda e: e["zero"].pop()), (5, lambda e: e.update(exact=1)),
-                    (6, lambda e: e.update(shape=[1, 4, 3])), (7, lambda e: e.update(changed=2))):
+                    (6, lambda e: e.update(finite=0)), (6, lambda e: e.update(outlo=1022)),
+                    (6, lambda e: e.update(outhi=8194)), (6, lambda e: e.update(order=0)),
+                    (6, lambda e: e.update(inlo=-2048, inhi=-1024, outlo=-1024, outhi=0)),
+                    (7, lambda e: e.update(shape=[1, 4, 3])), (8, lambda e: e.update(changed=2))):
         ev = copy.deepcopy(good)
         fn(ev[idx])
         muts.append((idx, ev))
-    traces = [dict(base, ev=good, tid=0)] + [dict(base, ev=ev, tid=k + 1) for k, (_, ev) in enumerate(muts)]
-    accepted, upto = validate(ctx, traces, "SpecAugmentTrace/selftest")
-    if accepted != {0}:
-        raise MachineryError("self-test: trace spec accepted %r, expected only the uncorrupted trace" % sorted(accepted))
+    # accepted variants: the unit of slack of HullOK, negative ranges, everything masked (outlo = inlo, outhi = inhi)
+    goods = [good]
+    for fn in (lambda e: e.update(outlo=1023, outhi=8193), lambda e: e.update(inlo=-8192, inhi=-1024, outlo=-8193, outhi=-1023),
+               lambda e: e.update(order=1, outlo=1024, outhi=8192)):
+        ev = copy.deepcopy(good)
+        fn(ev[6])
+        goods.append(ev)
+    traces = [dict(base, ev=ev, tid=k) for k, ev in enumerate(goods)]
+    traces += [dict(base, ev=ev, tid=len(goods) + k) for k, (_, ev) in enumerate(muts)]
+    diag = {}
+    accepted, upto = validate(ctx, traces, "SpecAugmentTrace/selftest", grid_diag=diag)
+    if accepted != set(range(len(goods))):
+        raise MachineryError("self-test: trace spec accepted %r, expected only the %d uncorrupted traces" % (sorted(accepted), len(goods)))
     for k, (idx, _) in enumerate(muts):
-        if upto.get(k + 1, 0) != idx:
-            raise MachineryError("self-test: corrupted event %d reported at %r" % (idx, upto.get(k + 1)))
+        if upto.get(len(goods) + k, 0) != idx:
+            raise MachineryError("self-test: corrupted event %d reported at %r" % (idx, upto.get(len(goods) + k)))
+    want = {6: dict(order=0, first=1, last=1), 7: dict(order=1, first=1, last=0), 8: dict(order=1, first=0, last=1)}
+    for k, w in want.items():
+        if diag.get(len(goods) + k, {}).get(4) != w:
+            raise MachineryError("self-test: corrupted grid %d classified %r by the specification, expected %r" % (
+                k, diag.get(len(goods) + k), w))
     ctx.count("selftest_corrupted_traces_rejected", len(muts))
 
 
 def run(ctx):
     ctx.rule = ("traces: one per batch element of SpecAugment.draw_parameters/apply_parameters/forward over every "
                 "combination of time-mask limits {0,small,large} x proportions x counts x time warps {0,0.5,1,2.5,10} with "
-                "frequency limits, shapes N<=3, T<=4(6), F<=3(4), length vectors and random sources cycling (seeded "
-                "generator and torch.rand stubbed to extreme values); applications: every in-bounds mask parameter "
+                "frequency limits, shapes N<=3, T<=4(6), F<=3(4), length vectors, dtypes float32/float64 and random sources "
+                "cycling (seeded generator and torch.rand stubbed to extreme values), interpolation order 1 everywhere and "
+                "orders 2, 3 on a quarter each (thorough: all) of the warp-enabled configurations; the linear time warp observed "
+                "on ramp features through the four entry points, and the deterministic long padded batch family (T in "
+                "{100,200,500(,1000)} x L in {T,T/2,50,10} x shift in {+-0.96W,+-0.5W}, direct and applied); applications: every in-bounds mask parameter "
                 "vector TLC enumerates for T<=3(4), F<=2(3), <=2 masks per axis. non-trivial = a non-empty mask or a "
                 "time warp was drawn (traces), some but not all cells zeroed (applications); distinct by "
                 "(configuration, shape, length, drawn parameters) / parameter vector")
     ctx.assumptions += [
-        "NOT DECIDED (real-valued interpolation): warped VALUES finite and inside the range of the input for any "
-        "spline order; monotonicity / pinned ends of the linear warp are decided only on the half-frame quantisation "
-        "floor(2 * source position) of the sampling grid produced by warp_1d_grid (weaker than the clause, cannot "
-        "false-alarm); interpolation orders >= 2 are not exercised",
+        "'no warp of any order yields a non-finite value or one outside the range of its input' is decided at the "
+        "abstraction level (HullOK in SpecAugment.tla): per batch element, every output cell finite and the non-masked "
+        "output cells inside [min, max] of the element's own (padded) input plane, in units of 1/1024 with one unit of "
+        "slack for the floating point rounding of the interpolation; the input is integer-valued, so its range is exact; "
+        "orders 2 and 3 are exercised on a quarter each of the warp-enabled configurations of the grid in the quick tier "
+        "(every one in the thorough tier), shapes T<=4(6), F<=3(4), plus order 1 on ramp features up to T=500(1000)",
+        "NOT DECIDED (real-valued interpolation): monotonicity / pinned ends of the linear warp beyond the half-frame "
+        "quantisation floor(2 * source position) of the sampling grid produced by warp_1d_grid / observed on ramp features "
+        "(weaker than the clause, cannot false-alarm); the values of a warp of order >= 2 beyond hull containment (orders "
+        ">= 2 produce parameter, Apply, Hull, Shape and Eval events only; no Grid event: the property constrains the "
+        "read order only for the default linear warp)",
+        "long padded batch family: explicit parameters (centre L/2, shifts +-0.96 W, +-0.5 W, W = min(80, L/2)), no "
+        "randomness; the specification (GridDiag) says which clause of GridOK a rejected grid fails; the single failing "
+        "combination on the unchanged tree (T=500, L=50, positive shift, last frame) is a recorded known finding",
         "warp limits are multiples of 0.5 frames and proportions multiples of 1/4, so that floor(length * proportion) "
         "and the window W = min(max_warp, length / 2) are exact in float32; a drawn real value x is represented by "
         "floor(2x) and ceil(2x) and rejected only if the whole interval lies outside the permitted window",
         "torch.rand (float32) can return any multiple of 2^-24 in [0, 1): the stubbed sources use 0, 2^-24, 0.5, "
         "1 - 2^-23, 1 - 2^-24 and random multiples",
-        "features are integer-valued, pairwise distinct and non-zero (positive when a warp is drawn), so a zero in the "
-        "output can only come from a mask",
-        "float64 features only without warps",
+        "features are integer-valued, pairwise distinct and non-zero (positive, and arranged non-affinely in (frame, "
+        "coefficient), when a warp is drawn), so a zero in the output can only come from a mask and the range of an "
+        "element's input plane is exact",
+        "float64 features with and without warps (a quarter of the recorded calls, a third of the observed-grid calls, "
+        "one of the two applied variants of the long padded batch family)",
     ]
     res = tlc.run(MOD, os.path.join(SPECS, "SpecAugment_%s.cfg" % ("quick" if ctx.quick else "thorough")),
                   workers=16, timeout=3000)
@@ -587,22 +876,54 @@ def run(ctx):
     run_apply(ctx, res.records)
     run_traces(ctx)
     run_observed_grids(ctx)
+    run_long_padded(ctx)
     # the mask applications are enumerated completely; the recorded draws are a grid of configurations
     # with seeded / stubbed randomness
     ctx.exhaustive = False
-    ctx.extra["exhaustive_parts"] = ["TLC: draw bounds, tightness, mask semantics, linear grid abstraction",
+    ctx.extra["exhaustive_parts"] = ["TLC: draw bounds, tightness, mask semantics, linear grid abstraction, hull of the border-padded bilinear read",
                                      "replay: every in-bounds mask parameter vector of the apply universe"]
 
 
 def replay(ctx, case):
-    if case.get("type") == "observed_grid":
-        print("observed-grid case; re-run the check to reproduce:", case.get("call"))
+    kind = case.get("type")
+    if kind == "observed_grid":
+        traces, meta = [], []
+        observed_traces(ctx, case["call"], traces, meta)
+        if traces:
+            accepted, upto = validate(ctx, traces, "SpecAugmentTrace/observed_grid")
+            for t, (call, pos) in zip(traces, meta):
+                if t["tid"] not in accepted:
+                    k = upto.get(t["tid"], 0)
+                    ev = t["ev"][k]
+                    sig = dict(site=call["entry_point"], kind="observed_linear_warp_grid") if ev["a"] == "Grid" else \
+                        trace_sig(t, ev, call["entry_point"])
+                    ctx.violation(sig, "element %d rejected at event %d: %r (positions read %r)" % (
+                        t["elem"], k + 1, ev, [round(p, 3) for p in pos]), case)
+            print("replay observed grid: %d of %d element traces accepted" % (len(accepted), len(traces)))
+        else:
+            print("replay observed grid: the call did not produce an output of the input's shape")
         return
-    if case["type"] == "apply":
+    if kind == "long_padded":
+        traces, meta = [], []
+        long_traces(ctx, case["call"], traces, meta)
+        if traces:
+            diag = {}
+            accepted, upto = validate(ctx, traces, "SpecAugmentTrace/long_padded_batch", grid_diag=diag)
+            long_report(ctx, traces, meta, accepted, upto, diag, ctx.violation)
+            print("replay long padded batch: %d of %d element traces accepted" % (len(accepted), len(traces)))
+        else:
+            print("replay long padded batch: the call raised")
+        return
+    if kind == "apply":
         check_apply_group(ctx, case["recs"], "replay", case["variant"])
         print("replay apply: %s" % ("still differs" if ctx.violations else "ok"))
         return
-    trs = record_call(case["call"])
+    try:
+        trs = record_call(case["call"])
+    except Exception as ex:
+        ctx.violation(dict(site="SpecAugment", kind="exception", exc=type(ex).__name__), "raised %s: %s" % (type(ex).__name__, ex), case)
+        print("replay call: raised %s: %s" % (type(ex).__name__, ex))
+        return
     for k, t in enumerate(trs):
         t["tid"] = k
     accepted, upto = validate(ctx, trs)
@@ -610,10 +931,7 @@ def replay(ctx, case):
         if t["tid"] not in accepted:
             k = upto.get(t["tid"], 0)
             ev = t["ev"][k]
-            sig = dict(site="SpecAugment", kind=KIND.get(ev["a"], "rejected"))
-            if ev["a"] == "Grid":
-                sig.update(axis=ev["axis"], destination=destination_class(t, ev["axis"]))
-            ctx.violation(sig, "element %d rejected at event %d: %r" % (t["elem"], k + 1, ev), case)
+            ctx.violation(trace_sig(t, ev), "element %d rejected at event %d: %r" % (t["elem"], k + 1, ev), case)
     print("replay call: %d of %d element traces accepted" % (len(accepted), len(trs)))
 
 
